@@ -944,21 +944,24 @@ Proof.
   - destruct (run_incomplete c d ess f0 Ht Hb Hdj Hs fuel' Hf') as [A B]. rewrite A, B in Hok. destruct Hok; discriminate.
 Qed.
 
-(* the same with the acceptance premise replaced by a condition on the inputs *)
+(* the same with the acceptance premise replaced by a condition on the inputs; then also: the names
+   are the names as sent, and nothing but the entries' own places has changed at the destination *)
 Theorem transfer_ready c d ess f0 : table_ok c ->
   Forall (fun es => bytes_ok (te_data (fst es)) = true) ess ->
   stat f0 d = SFound Dir -> Forall tr_comp_ok d -> tr_ready c d f0 (map fst ess) ->
   forall fuel, (tr_fuel digest zcomp c ess <= fuel)%nat ->
-  tr_outcome_ok c d f0 ess (tr_run digest H deq zcomp zdecomp zl unzl fuel c d ess f0) /\
-  ss_names (cf_s digest (tr_run digest H deq zcomp zdecomp zl unzl fuel c d ess f0)) =
-    fold_left tr_add_name (map (tr_key c) (map fst ess)) [].
+  let cf := tr_run digest H deq zcomp zdecomp zl unzl fuel c d ess f0 in
+  tr_outcome_ok c d f0 ess cf /\
+  ss_names (cf_s digest cf) = fold_left tr_add_name (map (tr_key c) (map fst ess)) [] /\
+  (forall q, q <> [] -> (forall e, In e (map fst ess) -> q <> tr_leaf_of c d e) ->
+     lookup (st_fs (rs_st (cf_r digest cf))) q = lookup f0 q).
 Proof.
-  intros Ht Hb Hd Hdc Hr fuel Hf.
-  destruct (ready_accepts c d Hdc f0 (map fst ess) Hd Hr) as (all & stf & Hs).
+  intros Ht Hb Hd Hdc Hr fuel Hf. cbv zeta.
+  destruct (ready_accepts c d Hdc f0 (map fst ess) Hd Hr) as (all & stf & Hs & Hfr).
   pose proof (ready_wf c d f0 (map fst ess) Hr) as Hwf.
   split; [apply (transfer_ok c d ess f0 _ all stf Ht Hb Hd Hwf Hs fuel Hf)|].
-  rewrite (run_complete c d ess f0 _ all stf Ht Hb Hs fuel Hf). cbn [final_conf cf_s ss_names].
-  destruct (spec_tree c d f0 (map fst ess) _ all stf Hd Hwf Hs) as (_ & A & _). exact A.
+  rewrite (run_complete c d ess f0 _ all stf Ht Hb Hs fuel Hf). cbn [final_conf cf_s cf_r ss_names rs_st].
+  destruct (spec_tree c d f0 (map fst ess) _ all stf Hd Hwf Hs) as (_ & A & _). split; [exact A | exact Hfr].
 Qed.
 
 End TransferProofs.
